@@ -16,6 +16,7 @@ import (
 	"go/format"
 	"go/parser"
 	"go/token"
+	"golang.org/x/tools/go/ast/astutil"
 	"os"
 	"path/filepath"
 )
@@ -199,6 +200,33 @@ func seamDial(s *staged) {
 	}
 }
 
+// seamConn: inside lookupInterface the call net.InterfaceByName goes through
+// verifInterfaceByName (default: the original), so that the real classification of
+// lookup failures runs over scripted answers.
+func seamConn() *staged {
+	s := load("internal/system/conn.go")
+	fd := findFunc(s.file, "", "lookupInterface")
+	if fd == nil || fd.Body == nil {
+		fatalf("anchor not found: func lookupInterface in internal/system/conn.go")
+	}
+	found := false
+	astutil.Apply(fd.Body, func(c *astutil.Cursor) bool {
+		if call, ok := c.Node().(*ast.CallExpr); ok {
+			if sel, ok := call.Fun.(*ast.SelectorExpr); ok && sel.Sel.Name == "InterfaceByName" {
+				if id, ok := sel.X.(*ast.Ident); ok && id.Name == "net" {
+					call.Fun = ast.NewIdent("verifInterfaceByName")
+					found = true
+				}
+			}
+		}
+		return true
+	}, nil)
+	if !found {
+		fatalf("anchor not found: call of net.InterfaceByName inside lookupInterface")
+	}
+	return s
+}
+
 func main() {
 	flag.Parse()
 	if *out == "" || *frag == "" {
@@ -211,6 +239,7 @@ func main() {
 	addr := seamAddresser()
 	dialer := load("internal/system/dialer.go")
 	seamDial(dialer)
+	seamConn().write()
 
 	switch *mode {
 	case "plain":
